@@ -8,7 +8,7 @@ import random
 from collections import Counter
 import vlib
 
-THEOREM_FILES = ['C10', 'C10b']
+THEOREM_FILES = ['C10', 'C10b', 'C10c']
 ASSUMPTIONS = ['the generator\'s binder implements the documented rules (labels/.equ global, .set = latest preceding assignment, .def from definition to .undef, names case-insensitive)',
                'all generated instructions are one word, so label addresses are line counts']
 
